@@ -1120,6 +1120,14 @@ impl DbInner {
 						self.log.clear_replay_logs();
 						return Ok(false)
 					}
+					// Make sure the record is complete and its checksum matches before any of
+					// its fields is interpreted.
+					if let Err(e) = self.check_record_integrity(&mut reader) {
+						log::debug!(target: "parity-db", "Error reading log: {:?}", e);
+						return Ok(false)
+					}
+					reader.reset()?;
+					reader.next()?;
 					// Validate all records before applying anything
 					loop {
 						let next = match reader.next() {
@@ -1298,6 +1306,28 @@ impl DbInner {
 			Ok(true)
 		} else {
 			Ok(false)
+		}
+	}
+
+	// Reads one record to its end without acting on its content. The reader verifies the
+	// checksum when it reaches the end of the record.
+	fn check_record_integrity(&self, reader: &mut crate::log::LogReader) -> Result<()> {
+		loop {
+			match reader.next()? {
+				LogAction::BeginRecord =>
+					return Err(Error::Corruption("Unexpected log header".into())),
+				LogAction::EndRecord => return Ok(()),
+				LogAction::InsertIndex(_) => crate::index::IndexTable::skip_plan(reader)?,
+				LogAction::InsertRefCount(_) => crate::ref_count::RefCountTable::skip_plan(reader)?,
+				LogAction::InsertValue(insertion) => {
+					let col = insertion.table.col() as usize;
+					self.columns
+						.get(col)
+						.ok_or_else(|| Error::Corruption(format!("Invalid column id {col}")))?
+						.skip_value_plan(insertion, reader)?;
+				},
+				LogAction::DropTable(_) | LogAction::DropRefCountTable(_) => (),
+			}
 		}
 	}
 
